@@ -2593,6 +2593,16 @@ class Interp:
                     if attr == "isdisjoint":
                         return not any(mem(x, others[0]) for x in obj)
                     return {x for x in obj if not mem(x, others[0])} | {y for y in self.dedupe(others[0]) if not mem(y, obj)}
+            if isinstance(obj, set) and attr == "pop" and not args:
+                # "an arbitrary element": which one depends on the hash order - taken under the imposed set order, so that
+                # code whose result depends on it differs between the two orders
+                if getattr(obj, "_frozen", False):
+                    raise AbsMutation(f"pop() on an input container ({src(n)})", where)
+                seq_ = list(self.iterate(obj))
+                if not seq_:
+                    raise AbsRaise(f"KeyError: 'pop from an empty set' at {src(n)}", where)
+                obj.remove(seq_[0])
+                return seq_[0]
             if isinstance(obj, (list, set, dict, tuple, frozenset)) and attr in (
                     "append", "extend", "add", "update", "pop", "insert", "keys", "values",
                     "items", "get", "index", "count", "copy", "remove", "sort", "reverse", "clear",
@@ -3024,6 +3034,10 @@ class Interp:
         if name == "id":
             if isinstance(args[0], (AObj, list, dict, set)) or is_native(args[0]):
                 return id(args[0])            # the identity of the (abstract) object: unique while it is alive
+            if args[0] is None or isinstance(args[0], (str, bytes, int, float, tuple, frozenset, EnumVal)):
+                # immutable values: the same object has the same identity for as long as something holds it (whether two
+                # equal values are one object is CPython's business, here as there)
+                return id(args[0])
             raise AnalysisError("ABSINT", "id() of a value outside fragment", where)
         if name in _BUILTIN_TYPES:
             raise AnalysisError("ABSINT", f"constructor {name} outside fragment", where)
